@@ -78,7 +78,12 @@ def run(ctx):
                 "constructor, each aggregate alone, all together, repeat, permutation, re-use on a second cube and back, shortcut "
                 "methods; index cases: one non-mutating method (C06 list incl. properties, column_stack, from_array) after a random "
                 "history of mutating operations, called twice (+ once with other arguments), results documented as copies are "
-                "overwritten; every argument snapshot byte-for-byte after every call.  A case is non-trivial when it is not "
+                "overwritten; every argument snapshot byte-for-byte after every call.  Every fifth cube case belongs to the MAGNITUDE "
+                "stream (40-80 rows, float facts / weights / values hidden under a False validity around 1e307 - their total is "
+                "inf - or around 1e-300).  The FORM of every argument varies with its content unchanged (harness/forms.py): arrays "
+                "strided / negative-stride / Fortran / transposed-store / READ-ONLY (a write attempt raises: also a finding), "
+                "dimension arrays in every integer dtype that holds them, NumPy-scalar N / ints, aggregates as list or tuple, "
+                "mappings as dict / OrderedDict / defaultdict, sequences as list / tuple / range / ndarray.  A case is non-trivial when it is not "
                 "rejected by the library and (cube) has a missing value or a shared array / (index) a non-empty index or history; "
                 "distinct = distinct case id")
     ctx.trusted = list(core.STD_TRUSTED) + [
@@ -148,6 +153,9 @@ def run(ctx):
     by_class = dict(res_t["stats"]["by_class"])
     for k, v in res_u["stats"]["by_class"].items():
         by_class[k] = by_class.get(k, 0) + v
+    form_tags = dict(res_t["stats"].get("forms", {}))
+    for k, v in res_u["stats"].get("forms", {}).items():
+        form_tags[k] = form_tags.get(k, 0) + v
     ctx.evaluations = stats["cases"]
     for c in cube_cases:
         if er.case_has_missing(c) or er._shared_refs(c):
@@ -159,6 +167,8 @@ def run(ctx):
     hit = sorted(tracer.claims_hit)
     ctx.coverage.update({
         "runtime": stats, "runtime_by_class": by_class,
+        "argument_forms": dict(sorted(form_tags.items())),
+        "magnitude_stream_cases": sum(1 for c in cube_cases if c.get("magnitude")),
         "runtime_wall_s": {"traced": res_t["wall"], "untraced": res_u["wall"]},
         "table_claims_total": len(claims), "table_claims_exercised": len(hit), "table_claim_checks": tracer.checked,
         "table_claim_violations": tracer.violations[:10], "tracer_errors": tracer.errors[:5],
